@@ -28,6 +28,7 @@ SCHEMA = """
       <xsd:complexType name="Base"><xsd:sequence><xsd:element name="value" type="xsd:string"/></xsd:sequence></xsd:complexType>
       <xsd:complexType name="Derived"><xsd:complexContent><xsd:extension base="tns:Base"><xsd:sequence><xsd:element name="extra" type="xsd:int"/></xsd:sequence></xsd:extension></xsd:complexContent></xsd:complexType>
       <xsd:element name="outS" type="xsd:string"/>
+      <xsd:element name="Fault" type="xsd:string"/>
       <xsd:element name="outI" type="xsd:int"/>
       <xsd:element name="outC1"><xsd:complexType><xsd:sequence><xsd:element name="v" type="xsd:string"/></xsd:sequence></xsd:complexType></xsd:element>
       <xsd:element name="outC1A"><xsd:complexType><xsd:sequence><xsd:element name="v" type="xsd:string"/></xsd:sequence><xsd:attribute name="id" type="xsd:string"/></xsd:complexType></xsd:element>
@@ -39,7 +40,7 @@ SCHEMA = """
       <xsd:element name="outX"><xsd:complexType><xsd:sequence><xsd:element name="val" type="tns:Base"/></xsd:sequence></xsd:complexType></xsd:element>
     </xsd:schema>"""
 
-DOC_OPS = ["outS", "outI", "outC1", "outC1A", "outC2", "outN", "outNN", "outE", "outL", "outX"]
+DOC_OPS = ["outS", "Fault", "outI", "outC1", "outC1A", "outC2", "outN", "outNN", "outE", "outL", "outX"]
 RPC_OPS = {"rpc0": [], "rpcS": [("r", "xsd:string")], "rpcInner": [("r", "tns:Inner")], "rpcWrap": [("r", "tns:Wrap1")],
            "rpc2": [("r1", "xsd:string"), ("r2", "xsd:int")]}
 
@@ -96,6 +97,9 @@ def reply_for(op, variant, spell):
     s1 = variant["s"]
     if op == "outS":
         return "<%soutS%s>%s</%soutS>" % (t, xm, s1, t), P(s1)
+    if op == "Fault":
+        # a payload element that merely shares its local name with soap-env:Fault (it lives in the service's namespace)
+        return "<%sFault%s>%s</%sFault>" % (t, xm, s1, t), P(s1)
     if op == "outI":
         return "<%soutI%s>%d</%soutI>" % (t, xm, variant["i"], t), P(variant["i"])
     if op == "outC1":
@@ -298,6 +302,7 @@ def run(ctx):
                 except Exception as e:  # noqa
                     res.failures.append(dict(what="raw_response call raised %s" % e, case=dict(version=ver, op=op, raw=True)))
     interleaving_probe(ctx, res)
+    dataset_histories(ctx, res)
     if ctx.model and pending:
         outs = ctx.model.run([p[0] for p in pending])
 
@@ -327,6 +332,75 @@ def run(ctx):
                 "envelope styles rotated (empty Header, undeclared header entry, utf-16 / latin-1 declared encodings, no Header element), all "
                 "calls of an operation in a row on one client; raw_response per operation. distinct = distinct cell")
     return res
+
+
+DS_WSDL = """<?xml version="1.0"?>
+<definitions xmlns="http://schemas.xmlsoap.org/wsdl/" xmlns:soap="http://schemas.xmlsoap.org/wsdl/soap/"
+  xmlns:xsd="http://www.w3.org/2001/XMLSchema" xmlns:tns="urn:ds" targetNamespace="urn:ds">
+  <types><xsd:schema targetNamespace="urn:ds" elementFormDefault="qualified">
+    <xsd:element name="Query"><xsd:complexType><xsd:sequence><xsd:element name="table" type="xsd:string"/></xsd:sequence></xsd:complexType></xsd:element>
+    <xsd:element name="QueryResponse"><xsd:complexType><xsd:sequence>
+      <xsd:element name="QueryResult"><xsd:complexType><xsd:sequence><xsd:element ref="xsd:schema"/><xsd:any/></xsd:sequence></xsd:complexType></xsd:element>
+      <xsd:element name="rows" type="xsd:int"/></xsd:sequence></xsd:complexType></xsd:element>
+  </xsd:schema></types>
+  <message name="qi"><part name="parameters" element="tns:Query"/></message>
+  <message name="qo"><part name="parameters" element="tns:QueryResponse"/></message>
+  <portType name="pt"><operation name="Query"><input message="tns:qi"/><output message="tns:qo"/></operation></portType>
+  <binding name="b" type="tns:pt"><soap:binding style="document" transport="http://schemas.xmlsoap.org/soap/http"/>
+    <operation name="Query"><soap:operation soapAction="urn:Query"/><input><soap:body use="literal"/></input><output><soap:body use="literal"/></output></operation></binding>
+  <service name="svc"><port name="p" binding="tns:b"><soap:address location="http://h.example/ds"/></port></service>
+</definitions>"""
+DS_REPLY = ('<e:Envelope xmlns:e="http://schemas.xmlsoap.org/soap/envelope/"><e:Body><QueryResponse xmlns="urn:ds"><QueryResult>'
+            '<xs:schema xmlns:xs="http://www.w3.org/2001/XMLSchema" targetNamespace="urn:rows" elementFormDefault="qualified">'
+            '<xs:element name="row"><xs:complexType><xs:sequence><xs:element name="key" type="xs:string"/><xs:element name="value" type="%s"/>'
+            '</xs:sequence></xs:complexType></xs:element></xs:schema>'
+            '<row xmlns="urn:rows"><key>%s</key><value>%s</value></row></QueryResult><rows>1</rows></QueryResponse></e:Body></e:Envelope>')
+
+
+def dataset_histories(ctx, res):
+    """replies that describe their own payload (inline xs:schema followed by xs:any, the .NET DataSet idiom): a history of
+    calls on one client whose replies declare the same column with different types -- each call must return what *its*
+    reply says, i.e. what a fresh client returns for that reply"""
+    import io
+    import decimal
+    import zeep
+    import zeep.transports
+    box = {}
+
+    class T(zeep.transports.Transport):
+        def post(self, address, message, headers):
+            import requests
+            r = requests.Response()
+            r.status_code = 200
+            r.headers["Content-Type"] = "text/xml; charset=utf-8"
+            r.encoding = "utf-8"
+            r._content = box["reply"].encode()
+            return r
+    cols = [("xs:int", "007", 7), ("xs:string", "007", "007"), ("xs:decimal", "1.50", decimal.Decimal("1.50")), ("xs:boolean", "1", True),
+            ("xs:string", "1", "1"), ("xs:int", "12", 12)]
+    orders = [[0, 1, 2, 3, 4, 5], [1, 0, 4, 3], [3, 4, 0, 1], [2, 1, 0]]
+    for oi, order in enumerate(orders):
+        shared = zeep.Client(io.BytesIO(DS_WSDL.encode()), transport=T())
+        for step, ci in enumerate(order):
+            ty, text, exp = cols[ci]
+            box["reply"] = DS_REPLY % (ty, "k%d" % ci, text)
+            res.case(key=("dataset", oi, step), nontrivial=True)
+            res.count("dataset-history-step")
+            case = dict(kind="dataset", order=order, step=step, column_type=ty, text=text)
+            try:
+                got = []
+                for client in (shared, zeep.Client(io.BytesIO(DS_WSDL.encode()), transport=T())):
+                    r = client.service.Query(table="t")
+                    row = r.QueryResult._value_1
+                    got.append((row.key, row.value, type(row.value).__name__, r.rows))
+                want = ("k%d" % ci, exp, type(exp).__name__, 1)
+                if got[0] != want or got[1] != want:
+                    res.failures.append(dict(what="a reply describing its own payload: the shared client returned %r, a fresh client %r, the reply says %r"
+                                             % (got[0], got[1], want), case=case))
+                    break
+            except Exception as e:  # noqa
+                res.failures.append(dict(what="self-describing reply raised %s: %s" % (type(e).__name__, e), case=case))
+                break
 
 
 def interleaving_probe(ctx, res):
